@@ -20,6 +20,10 @@ let parse_op (s : string) : api =
   | ["E"; o; d] -> AEncode (nat (int_of_string o), nat (int_of_string d))
   | ["W"; o; d] -> AEncodeSW (nat (int_of_string o), nat (int_of_string d))
   | ["G"; o; d] -> ASamples (nat (int_of_string o), nat (int_of_string d))
+  | ["K"; o; d] -> ADecryptInit (nat (int_of_string o), nat (int_of_string d))
+  | ["P"; o; d] | ["p"; o; d] -> AInitProtect (nat (int_of_string o), nat (int_of_string d))
+  | ["Y"; m; k] -> ADecryptWith (nat (int_of_string m), parse_src k)
+  | ["F"; m; k] -> AEncryptWith (nat (int_of_string m), nat (int_of_string k))
   | ["C"; o] | ["c"; o] -> AEncrypt (nat (int_of_string o))
   | ["X"; o] -> ADecrypt (nat (int_of_string o))
   | ["B"; o] -> AToByteStream (nat (int_of_string o))
